@@ -98,6 +98,19 @@ def gen_script(rng):
     return (src.hex() or "-") + " ; " + " ; ".join(ops)
 
 
+def links_ok(dump):
+    """next/prev of a heap dump '<n> type:start:len:next:prev:child:tail:mate ...' point back at each other"""
+    try:
+        T = [None] + [[int(x) for x in t.split(":")] for t in dump.split()[1:]]
+    except ValueError:
+        return False
+    for i in range(1, len(T)):
+        nx, pv = T[i][3], T[i][4]
+        if nx and not (0 < nx < len(T) and T[nx][4] == i): return False
+        if pv and not (0 < pv < len(T) and T[pv][3] == i): return False
+    return True
+
+
 def surgery_compare(drv, har, scripts):
     """-> [(script cut before the first undefined operation, model heap, implementation heap)]"""
     model = common.run_lines_par(drv, scripts, args=["surgery"], timeout=600)
@@ -124,7 +137,10 @@ def surgery_part(rep, tier, rng, drv, bad):
         ops = cut.split(" ; ")[1:]
         for o in ops: hist[o.split()[0]] += 1
         if any(o.split()[0] in ("PG", "SP", "SC", "PR", "PL") for o in ops[1:]): nontriv.add(cut)
-        if exp != impl:
+        if exp != impl and links_ok(exp) and not links_ok(impl):
+            bad.append((b"", cut, "surgery-links-broken", "an operation script on which the model keeps next/prev mutually consistent leaves token.c with a token whose "
+                        "neighbour does not point back: implementation heap %s" % impl[:300]))
+        elif exp != impl:
             bad.append((b"", cut, "surgery-model-vs-impl", "token.c and coq/model/TokenHeap.v differ on an operation script: model %s / implementation %s" % (exp[:200], impl[:200])))
     rep.cov["surgery_scripts"] = len(scripts)
     rep.cov["surgery_scripts_nontrivial"] = len(nontriv)
@@ -195,6 +211,8 @@ def run(rep, tier, seed):
     for d, c, kind, what in bad:
         if kind in seen: continue
         seen.add(kind)
+        if kind == "surgery-links-broken":
+            rep.violation(kind, what, dict(script=c, no_failing_input=False, replay_cmd="python3 check.py C15 --replay <this file>")); continue
         if kind == "surgery-model-vs-impl":
             small = shrink_script(drv, common.build_harness("asan", "surgery"), c)
             cc, e, i = surgery_compare(drv, common.build_harness("asan", "surgery"), [small])[0]
